@@ -1,0 +1,22 @@
+//go:build verif
+
+// Contracts for govc (comment-only file; see /verif/DESIGN.md section 3).
+package cmp
+
+// ---- entry points (C20): none of them may panic, whatever the arguments
+//@ func Keygen
+//@   nopanic[C20]
+//@   ensures result != nil
+//@ func Refresh
+//@   nopanic[C20]
+//@   requires config != nil ==> cfgwf(config)
+//@   ensures result != nil
+//@ func Sign
+//@   nopanic[C20]
+//@   ensures result != nil
+//@ func Presign
+//@   nopanic[C20]
+//@   ensures result != nil
+//@ func PresignOnline
+//@   nopanic[C20]
+//@   ensures result != nil
